@@ -188,6 +188,33 @@ def escaping(ctx):
             "best-quote", f.where, "use_best_quote_char no longer picks the delimiter that does not occur in the value")
 
 
+# The (element, attribute) pairs whose value the default minimisation drops on today's tree.  Each is an instance of the known
+# finding Q5 minimise-value (`disabled="disabled"` is read back as ""); a pair that is not listed is a *new* instance of the
+# same defect (another attribute starts losing its value) and is reported.
+MINIMISED_TODAY = {
+    '': ['irrelevant', 'itemscope'],
+    'audio': ['autoplay', 'controls'],
+    'button': ['autofocus', 'disabled'],
+    'command': ['checked', 'default', 'disabled', 'hidden'],
+    'datagrid': ['disabled', 'multiple'],
+    'details': ['open'],
+    'fieldset': ['disabled', 'readonly'],
+    'hr': ['noshade'],
+    'iframe': ['seamless'],
+    'img': ['ismap'],
+    'input': ['autofocus', 'checked', 'disabled', 'ismap', 'readonly', 'required'],
+    'menu': ['autosubmit'],
+    'ol': ['reversed'],
+    'optgroup': ['disabled', 'readonly'],
+    'option': ['disabled', 'readonly', 'selected'],
+    'output': ['disabled', 'readonly'],
+    'script': ['async', 'defer'],
+    'select': ['autofocus', 'disabled', 'multiple', 'readonly'],
+    'style': ['scoped'],
+    'video': ['autoplay', 'controls'],
+}
+
+
 def minimise(ctx):
     from .c08 import serialize_cfg, yields
     r = ctx.r
@@ -228,6 +255,12 @@ def minimise(ctx):
                         {"element": el, "attribute": at}, detail={"element": el, "attribute": at, "minimised": not keeps})
     else:
         r.idiom("Q5", False, "minimise-scope", f.where, "the guard of the `=` emission was not found")
+    for el, attrs_ in sorted(ba.items()):
+        for at in sorted(attrs_):
+            r.check("Q5", at in MINIMISED_TODAY.get(el, ()), "minimise-table[%s %s]" % (el or "*", at), ctx.ce.provenance(ctx.repo.module("constants.py"), "booleanAttributes"),
+                    "booleanAttributes now lists `%s` for %s: with the default minimize_boolean_attributes its value is dropped "
+                    "(%s=\"until-found\" is written as a bare `%s` and read back as \"\") -- a new instance of the value-dropping defect"
+                    % (at, ("<%s>" % el) if el else "every element", at, at), {"element": el, "attribute": at})
     guard_tests = [n for n in cfg.nodes if n.kind == "test" and ("booleanAttributes" in norm(n.ast) or (
         len(gifs) == 1 and any(x is n.ast for x in ast.walk(gifs[0].test)) and "minimize_boolean_attributes" not in norm(n.ast)))]
     if not guard_tests:
